@@ -1,7 +1,9 @@
 """Shared machinery of the checks decided by Metadata.tla (C12, C20 and the protocol half of C13)."""
 import concurrent.futures
 import json
+import multiprocessing
 import os
+import random
 
 from .. import tlc
 from ..core import Machinery, quiet_stderr
@@ -53,33 +55,56 @@ def e1(ctx, main_cfg, wit):
     witnesses(ctx, "MCMetadata", wit)
 
 
+def _pool(n):
+    # scenario generation is pure Python + HDF5 I/O on tmpfs: forked workers, one scratch directory each
+    return concurrent.futures.ProcessPoolExecutor(max_workers=max(1, min(12, n)), mp_context=multiprocessing.get_context("fork"))
+
+
+def _replay_one(args):
+    import digital_rf
+    work, i, beh, seed, deep = args
+    try:
+        return mg.replay_behaviour(digital_rf, os.path.join(work, "md", "e2-%d" % os.getpid()), beh, i, random.Random(seed), tlc.tla_to_py,
+                                   deep, "sim%d" % i)
+    except md.DriverError as e:
+        return "driver error: %s" % e, None
+
+
+def _random_one(args):
+    import digital_rf
+    work, i, kind, seed = args
+    gen = mg.random_c12 if kind == "c12" else mg.random_c20
+    try:
+        return gen(digital_rf, os.path.join(work, "md", "e3-%d" % os.getpid()), random.Random(seed), "%s-rand%d" % (kind, i))
+    except md.DriverError as e:
+        return "driver error: %s" % e
+
+
 def e2(ctx, digital_rf, nbeh, depth, deep):
     """behaviours simulated by TLC from MCMetadata executed on the real writer / readers; the recorded traces are validated
     like any other, and the stored indices / their files are compared with the state TLC printed after every write"""
     behs, cmd = tlc.simulate("MCMetadata", "MCMetadata_sim.cfg", ctx.work, num=nbeh, depth=depth, seed=ctx.seed + 11)
     ctx.extra["simulate_cmd"] = cmd
+    jobs = [(ctx.work, i, beh, ctx.rng.getrandbits(48), deep) for i, beh in enumerate(behs) if len(beh) >= 2]
     scen, bad = [], []
-    for i, beh in enumerate(behs):
-        if len(beh) < 2:
-            continue
-        try:
-            sc, mm = mg.replay_behaviour(digital_rf, os.path.join(ctx.work, "md", "e2"), beh, i, ctx.rng, tlc.tla_to_py, deep, "sim%d" % i)
-        except md.DriverError as e:
-            raise Machinery(str(e))
-        scen.append(sc)
-        if mm:
-            bad.append((len(scen) - 1, mm))
+    with _pool(len(jobs)) as ex:
+        for sc, mm in ex.map(_replay_one, jobs, chunksize=4):
+            if isinstance(sc, str):
+                raise Machinery(sc)
+            scen.append(sc)
+            if mm:
+                bad.append((len(scen) - 1, mm))
     return scen, bad
 
 
 def e3(ctx, digital_rf, n, kind):
+    jobs = [(ctx.work, i, kind, ctx.rng.getrandbits(48)) for i in range(n)]
     scen = []
-    gen = mg.random_c12 if kind == "c12" else mg.random_c20
-    for i in range(n):
-        try:
-            scen.append(gen(digital_rf, os.path.join(ctx.work, "md", "e3"), ctx.rng, "%s-rand%d" % (kind, i)))
-        except md.DriverError as e:
-            raise Machinery(str(e))
+    with _pool(n) as ex:
+        for sc in ex.map(_random_one, jobs, chunksize=2):
+            if isinstance(sc, str):
+                raise Machinery(sc)
+            scen.append(sc)
     return scen
 
 
